@@ -4,14 +4,21 @@
    program regenerated from casbin/util/rwlock.py on this run — for ANY number of threads, each
    doing ANY finite list of read/write rounds (the property only asks for four threads x two rounds). *)
 From Coq Require Import List ZArith Bool.
-From PyCasbin Require Import Base RWLockLang RWLock RWLockProofs RWLockTie.
+From PyCasbin Require Import Base RWLockLang RWLock RWLockProofs RWLockTrace RWLockTie.
 From PyCasbinGen Require Import RWLockGen.
 Import ListNotations.
 
-(* the regenerated program, run by the interpreter, is the hand-written abstract system *)
-Theorem C16_tie : forall c i, mon_step rwlock_gen c i = rw_step c i.
-Proof. exact tie. Qed.
+(* the regenerated program, run by the interpreter, steps exactly like the hand-written abstract
+   system on every configuration that satisfies the invariant [Inv] (six counting clauses,
+   RWLockProofs.v) — in particular on every reachable configuration *)
+Theorem C16_tie : forall c i, Inv c -> mon_step rwlock_gen c i = rw_step c i.
+Proof. exact tie_inv. Qed.
 Print Assumptions C16_tie.
+
+Theorem C16_tie_reachable : forall progs c, reachable (mon_step rwlock_gen) progs c ->
+  forall i, mon_step rwlock_gen c i = rw_step c i.
+Proof. exact g_tie. Qed.
+Print Assumptions C16_tie_reachable.
 
 (* writer-exclusive: a thread inside a write section is alone *)
 Theorem C16_exclusion : forall progs c, reachable (mon_step rwlock_gen) progs c ->
@@ -33,7 +40,7 @@ Proof. exact g_readers_share. Qed.
 Print Assumptions C16_readers_share.
 
 (* a reader is admitted whenever no writer is active or registered, however many readers are inside *)
-Theorem C16_reader_admitted : forall c i td,
+Theorem C16_reader_admitted : forall progs c i td, reachable (mon_step rwlock_gen) progs c ->
   nth_error (ths c) i = Some {| ph := Idle; todo := Rd :: td |} ->
   wa c = false -> (ww c <= 0)%Z ->
   exists c', mon_step rwlock_gen c i = Some c' /\ inside c' i Rd /\ ar c' = (ar c + 1)%Z /\
@@ -56,7 +63,7 @@ Proof. exact g_deadlock_free. Qed.
 Print Assumptions C16_deadlock_free.
 
 (* every acquire eventually returns: (a) every schedule is finite (bounded by [measure]) ... *)
-Theorem C16_every_schedule_finite : forall c s c',
+Theorem C16_every_schedule_finite : forall progs c s c', reachable (mon_step rwlock_gen) progs c ->
   steps (mon_step rwlock_gen) c s c' -> (length s <= measure c)%nat.
 Proof. exact g_schedules_finite. Qed.
 Print Assumptions C16_every_schedule_finite.
@@ -103,6 +110,21 @@ Theorem C16_exclusion_survives_spurious_wakeup : forall progs c i c',
 Proof. exact g_inv_spurious. Qed.
 Print Assumptions C16_exclusion_survives_spurious_wakeup.
 
+(* the specification that the harness evaluates on the event traces of the REAL lock (spec_trace:
+   exclusion / no reader enters while a writer is registered / no reader that arrived after a waiting
+   writer enters before it) accepts every trace of the regenerated program: no verdict ever fails *)
+Theorem C16_trace_spec : forall progs s,
+  spec_trace (events (mon_step rwlock_gen) (init progs) s) = (None, None, None).
+Proof. exact g_trace_spec. Qed.
+Print Assumptions C16_trace_spec.
+
+(* readers share, on traces: in no trace does a reader's acquire block unless a writer is inside or
+   registered at that moment *)
+Theorem C16_trace_readers_share : forall progs s,
+  spec_share (events (mon_step rwlock_gen) (init progs) s) = None.
+Proof. exact g_trace_share. Qed.
+Print Assumptions C16_trace_readers_share.
+
 (* non-vacuity.  reader 0 enters, writer 1 registers and sleeps, reader 2 arrives later and sleeps
    (hypotheses of C16_writer_preference hold with w = 1), reader 0 leaves and wakes both, reader 2
    runs first and must sleep again, writer 1 enters: a writer inside with a reader blocked
@@ -124,4 +146,19 @@ Example C16_example_completes :
              (exec (mon_step rwlock_gen) (init [[Rd; Wr]; [Wr]; [Rd]; [Wr; Rd]])
                    [0; 1; 3; 2; 0; 1; 2; 1; 3; 0; 2; 3; 0; 2; 0; 3; 2; 3; 2]%nat)
   = Some true.
+Proof. vm_compute. reflexivity. Qed.
+
+(* the trace specification is not vacuous: it rejects a reader entering past a registered writer,
+   two writers inside, and a late reader overtaking *)
+Example C16_example_spec_rejects :
+  spec_trace [ {| e_tid := 0; e_kind := Rd; e_what := Entered |};
+               {| e_tid := 1; e_kind := Wr; e_what := Blocked |};
+               {| e_tid := 2; e_kind := Rd; e_what := Entered |};
+               {| e_tid := 3; e_kind := Wr; e_what := Entered |} ]%nat
+  = (Some 3, Some 2, Some 2)%nat.
+Proof. vm_compute. reflexivity. Qed.
+
+Example C16_example_share_rejects :
+  spec_share [ {| e_tid := 0; e_kind := Rd; e_what := Entered |};
+               {| e_tid := 1; e_kind := Rd; e_what := Blocked |} ]%nat = Some 1%nat.
 Proof. vm_compute. reflexivity. Qed.
